@@ -122,15 +122,20 @@ func runC20(p *eng.Prog, r *eng.Report, tier string) {
 			for _, st := range lit.Body.List {
 				switch s := st.(type) {
 				case *ast.AssignStmt:
-				case *ast.IfStmt:
-					be, ok := s.Cond.(*ast.BinaryExpr)
-					if !ok || be.Op != token.NEQ || len(s.Body.List) != 1 {
+				case *ast.IfStmt, *ast.SwitchStmt:
+					cond, body, els, isIf := asIf(st)
+					if !isIf || els != nil {
+						okShape = false
+						continue
+					}
+					be, ok := ast.Unparen(cond).(*ast.BinaryExpr)
+					if !ok || be.Op != token.NEQ || len(body) != 1 {
 						okShape = false
 						continue
 					}
 					fx, _ := be.X.(*ast.SelectorExpr)
 					fy, _ := be.Y.(*ast.SelectorExpr)
-					rs, _ := s.Body.List[0].(*ast.ReturnStmt)
+					rs, _ := body[0].(*ast.ReturnStmt)
 					if fx == nil || fy == nil || rs == nil || fx.Sel.Name != fy.Sel.Name {
 						okShape = false
 						continue
